@@ -1,17 +1,18 @@
 #!/bin/bash
 # usage: tools/ev.sh <seed-root> <ID> <checks...>
-# Evaluation sandbox (does not touch /repo or /verif/mc): /tmp/ev/repo is a scratch worktree of /repo's HEAD,
-# /tmp/ev/mc a copy of the harness pointed at it (sync with: rsync -a --delete /verif/mc/src/ /tmp/ev/mc/src/).
+# Evaluation sandbox (does not touch /repo or /verif/mc): $EV/repo is a scratch worktree of /repo's HEAD,
+# $EV/mc a copy of the harness pointed at it (sync with: rsync -a --delete /verif/mc/src/ $EV/mc/src/).
+EV=${EV_DIR:-/tmp/ev}
 root="$1"; id="$2"; shift 2
 p="$root/$id.out/patch_on_head.diff"; [ -f "$p" ] || p="$root/$id.out/patch.diff"; [ -f "$p" ] || p="$root/$id/patch.diff"
-cd /tmp/ev/repo || exit 2
+cd $EV/repo || exit 2
 git checkout -q -- . ; git apply "$p" || { echo "$id: patch does not apply"; exit 2; }
-if ! (cd /tmp/ev/mc && CARGO_NET_OFFLINE=true CARGO_TARGET_DIR=/tmp/ev/target cargo build --release --offline >/tmp/ev/build.log 2>&1); then
+if ! (cd $EV/mc && CARGO_NET_OFFLINE=true CARGO_TARGET_DIR=$EV/target cargo build --release --offline >$EV/build.log 2>&1); then
   echo "$id: BUILD FAILED"; git checkout -q -- .; exit 2; fi
 caught=""; silent=""; mach=""
 for c in "$@"; do
-  out=$(cd /verif && VERIF_OUT_ROOT=/tmp/ev/out timeout 900 /tmp/ev/target/release/hdmc "$c" --tier quick 2>&1); rc=$?
-  echo "$out" | grep -E "signature:" | head -3 | sed "s/^/   [$id→$c] /" | cut -c1-260 >> /tmp/ev/detail.log
+  out=$(cd /verif && VERIF_OUT_ROOT=$EV/out timeout 900 $EV/target/release/hdmc "$c" --tier quick 2>&1); rc=$?
+  echo "$out" | grep -E "signature:" | head -3 | sed "s/^/   [$id→$c] /" | cut -c1-260 >> $EV/detail.log
   if [ $rc -eq 1 ]; then caught="$caught $c"; elif [ $rc -eq 0 ]; then silent="$silent $c"; else mach="$mach $c(rc=$rc)"; fi
 done
 git checkout -q -- .
